@@ -4,6 +4,7 @@ import ASV.Spec.Grammar
 import ASV.Generated.ShippedRules
 import ASV.Spec.Rulesets
 import ASV.Spec.TokenLayout
+import ASV.Proofs.Continuations
 namespace ASV.Drv.C02
 open Lean ASV ASV.Drv ASV.Rules ASV.Parser ASV.Grammar
 
@@ -260,6 +261,62 @@ def handleLayout (j : Json) : R Json := do
   return jObj (model ++ [("render_ok", toJson (rendered == text)), ("scope", toJson scope),
                          ("expect", tokensJson expect)])
 
+/-! ### continuations: several `Parser(text, existing_rules=…)` calls in one process -/
+
+def contRowsJson (rs : List Rule) : Json :=
+  jArr (rs.map fun r => jArr [Json.str r.name, Json.str r.category, toJson r.cutoff, toJson r.neighbourhood,
+                               jStrs r.superiors, Json.str (printCond r.conditions)])
+
+open ASV.Continuations in
+/-- steps: `{"from": null | index of an earlier step, "text": …}`; model = the list-object store;
+    spec = the text parsed after the *value* the named step returned (history-free) -/
+def handleContinuations (j : Json) : R Json := do
+  let cfg ← cfgOfJson j
+  let steps ← listOf (fun s => do
+    let fromJ := fldD s "from" Json.null
+    let ex ← (match fromJ with
+      | Json.null => pure none
+      | v => do pure (some (← asNat v)) : R (Option Nat))
+    return (ex, ← strF s "text")) (← fld j "steps")
+  -- model: step k's list object; a failed step has none
+  let mut st : Store := []
+  let mut refs : List (Option Nat) := []
+  let mut outs : List Json := []
+  let mut pure_ : List Json := []
+  let mut vals : List (Option (List Rule)) := []
+  for (ex, text) in steps do
+    let exRef : Option (Option Nat) := match ex with
+      | none => some none
+      | some k => match refs[k]? with
+        | some (some r) => some (some r)
+        | _ => none
+    -- history-free: the value the named step returned when it returned
+    let given : Option (List Rule) := match ex with
+      | none => some []
+      | some k => (vals[k]?).join
+    pure_ := pure_ ++ [match given with
+      | none => Json.null
+      | some g => match parseText cfg g [] text with
+        | .ok (rules, _) => jObj [("rules", contRowsJson rules)]
+        | .error e => jObj [("err", Json.str e.name)]]
+    match exRef with
+    | none =>
+      refs := refs ++ [none]; vals := vals ++ [none]; outs := outs ++ [Json.null]
+    | some exr =>
+      match parserRules cfg st exr text with
+      | .ok (ref, st') =>
+        st := st'
+        refs := refs ++ [some ref]
+        vals := vals ++ [st'[ref]?]
+        outs := outs ++ [jObj [("rules", contRowsJson ((st'[ref]?).getD []))]]
+      | .error e =>
+        refs := refs ++ [none]; vals := vals ++ [none]
+        outs := outs ++ [jObj [("err", Json.str e.name)]]
+  let finals := refs.map fun r => match r with
+    | some ref => contRowsJson ((st[ref]?).getD [])
+    | none => Json.null
+  return jObj [("model", jObj [("steps", jArr outs), ("final", jArr finals)]), ("spec", jObj [("steps", jArr pure_)])]
+
 /-! ### rulesets: `get_ruleset` sequences and `Ruleset.from_files` -/
 
 open ASV.Rulesets in
@@ -369,6 +426,7 @@ def handle (j : Json) : R Json := do
   match (← strF j "kind") with
   | "tokens" => handleTokens j
   | "layout" => handleLayout j
+  | "continuations" => handleContinuations j
   | "parse" => handleParse j
   | "rulesets" => handleRulesets j
   | "from_files" => handleFromFiles j
